@@ -317,7 +317,9 @@ def main():
                     u = iv.get('u_ok')
                     p.print_stats(live, output_unit=(float(u) if u is not None else None), stripzeros=bool(iv.get('s')))
                     o['live'] = live.getvalue().rstrip()
-                    o['raw_timings'] = {repr(kk): v for kk, v in p.get_stats().timings.items()}
+                    _ls = p.get_stats()
+                    o['snapshot'] = dict(timings=[[list(kk), [list(r) for r in v]] for kk, v in _ls.timings.items()],
+                                         unit=float(_ls.unit).hex())
                 else:
                     o['stats'] = None
                     o['count_during'] = -1
